@@ -17,6 +17,8 @@ type Hooks struct {
 	OnError *Script
 	// Sub predicts a nested request in the model (set by PModel.EnableSub); nil = nested requests disabled
 	Sub func(method, path string) string
+	// Forward predicts an internal forward of the same context (set by PModel.EnableForward)
+	Forward func(m *MCtx, path string)
 }
 
 // SubText renders the outcome of a nested request for the parent's trace.
@@ -46,29 +48,34 @@ func ModelDispatch(chain []*Script, hooks Hooks, rec *RecWriter, req *http.Reque
 	w := &ModelWriter{U: rec}
 	m = NewMCtx(chain, w, req, ps, tr)
 	m.NoAbt = noAbt
-	m.SubFn = hooks.Sub
-	func() {
-		defer func() {
-			if v := recover(); v != nil {
-				if hooks.OnPanic == nil {
-					out.Escaped = v
-					return
-				}
-				m.Set(rux.CTXRecoverResult, v)
-				tr.Add("OnPanic recovered=%s", label(v))
-				Run(hooks.OnPanic, m, tr)
-				w.Commit()
-			}
-		}()
-		m.Next()
-		if hooks.OnError != nil && m.NErr > 0 {
-			tr.Add("OnError errors=%d", m.NErr)
-			Run(hooks.OnError, m, tr)
-		}
-		w.Commit()
-	}()
+	out.Escaped = ModelRun(m, hooks)
 	out.Trace, out.Log = tr.String(), rec.Log()
 	return
+}
+
+// ModelRun is the protected region of one dispatch (also used for an internal forward, which dispatches the same
+// request again on the same writer): chain, error hook, header commit; a panic goes to the panic hook or escapes.
+func ModelRun(m *MCtx, hooks Hooks) (escaped any) {
+	m.SubFn, m.FwdFn = hooks.Sub, hooks.Forward
+	defer func() {
+		if v := recover(); v != nil {
+			if hooks.OnPanic == nil {
+				escaped = v
+				return
+			}
+			m.Set(rux.CTXRecoverResult, v)
+			m.Tr.Add("OnPanic recovered=%s", label(v))
+			Run(hooks.OnPanic, m, m.Tr)
+			m.W.Commit()
+		}
+	}()
+	m.Next()
+	if hooks.OnError != nil && m.NErr > 0 {
+		m.Tr.Add("OnError errors=%d", m.NErr)
+		Run(hooks.OnError, m, m.Tr)
+	}
+	m.W.Commit()
+	return nil
 }
 
 // World owns the scripts and the per-request state of the real side.
